@@ -133,7 +133,7 @@ def conductor_run(ctx, prop, fam, project, monitor, features, nontrivial, n_quic
         for v in r.get("violations", []):
             v = dict(v)
             v.update({"property": prop, "seed": r["seed"], "definition": r["definition"],
-                      "inputs": r["inputs"], "ops": r["ops"]})
+                      "inputs": r["inputs"], "ops": r["ops"][: v.get("upto", v.get("step", len(r["ops"]) - 1)) + 1]})
             k = classify_known(v, known) if classify_known else None
             if k:
                 line = "%s %s" % (k["id"], k["what"])
@@ -163,7 +163,8 @@ def conductor_run(ctx, prop, fam, project, monitor, features, nontrivial, n_quic
             for v in r.get("violations", []):
                 v = dict(v)
                 v.update({"property": prop, "seed": r["seed"], "definition": r["definition"],
-                          "inputs": r["inputs"], "ops": r["ops"], "found_by": "search"})
+                          "inputs": r["inputs"], "found_by": "search",
+                          "ops": r["ops"][: v.get("upto", v.get("step", len(r["ops"]) - 1)) + 1]})
                 k = classify_known(v, known) if classify_known else None
                 if k:
                     v["known"] = k["id"]
